@@ -21,6 +21,9 @@ use std::sync::atomic::{AtomicUsize, Ordering as AO};
 pub static LIVE: AtomicUsize = AtomicUsize::new(0);
 pub static PEAK: AtomicUsize = AtomicUsize::new(0);
 pub static ALLOC_COUNT: AtomicUsize = AtomicUsize::new(0);
+/// allocations / deallocations with alignment exactly 64: serve_epoll's per-connection records (C15); never muted
+pub static A64_ALLOCS: AtomicUsize = AtomicUsize::new(0);
+pub static A64_FREES: AtomicUsize = AtomicUsize::new(0);
 thread_local! {
     /// allocations of a muted thread (the harness's own client side of an end-to-end measurement) are not counted
     pub static MUTED: std::cell::Cell<bool> = const { std::cell::Cell::new(false) };
@@ -30,6 +33,7 @@ struct Counting;
 unsafe impl GlobalAlloc for Counting {
     unsafe fn alloc(&self, l: Layout) -> *mut u8 {
         let p = System.alloc(l);
+        if l.align() == 64 && !p.is_null() { A64_ALLOCS.fetch_add(1, AO::SeqCst); }
         if !p.is_null() && !muted() {
             let live = LIVE.fetch_add(l.size(), AO::SeqCst) + l.size();
             PEAK.fetch_max(live, AO::SeqCst);
@@ -38,6 +42,7 @@ unsafe impl GlobalAlloc for Counting {
         p
     }
     unsafe fn dealloc(&self, p: *mut u8, l: Layout) {
+        if l.align() == 64 { A64_FREES.fetch_add(1, AO::SeqCst); }
         System.dealloc(p, l);
         if !muted() { LIVE.fetch_sub(l.size(), AO::SeqCst); }
     }
@@ -72,6 +77,7 @@ fn main() {
         let r = match a[2].as_str() {
             "date" => s_date::run_date(&a[3]),
             "datecache" => s_date::run_cache(&a[3]),
+            "dateresp" => s_date::run_resp(&a[3]),
             "router" => s_router::run(&a[3]),
             "headers" => s_headers::run(&a[3]),
             "parse" => s_parse::run_parse(&a[3]),
@@ -103,6 +109,7 @@ fn main() {
     match a[1].as_str() {
         "date" => s_date::gen_date(&ctx),
         "datecache" => s_date::gen_cache(&ctx),
+        "dateresp" => s_date::gen_resp(&ctx),
         "router" => s_router::gen(&ctx),
         "headers" => s_headers::gen(&ctx),
         "parse" => s_parse::gen_parse(&ctx),
